@@ -411,6 +411,7 @@ def fixup_ast_from_modifications(transformed_ast: ast.AST, original_ast: ast.Cal
             n_old_args = len(orig_ast.args)
             for a in node.args[n_old_args:]:
                 orig_ast.args.append(a)
+            orig_ast.keywords = node.keywords
             orig_ast.func = node.func
 
     fixer = arg_fixer(original_ast)
